@@ -89,13 +89,13 @@ def cases(tier, seed):
     if tier == "quick":
         yield from small_cases(1, 2) + small_cases(2, 2) + small_cases(2, 3) + small_cases(3, 2)
         exh = small_cases(4, 2)
-        yield from interleave((exh, 3), (rand_stream("walk", 120000), 8),
+        yield from interleave((exh, 3), (rand_stream("walk", 120000), 8), rand_stream("manysets", 16),
                               rand_stream("wide", 160), rand_stream("errors", 1500),
                               rand_stream("boundary", 300))
     else:
         yield from small_cases(1, 2) + small_cases(2, 2) + small_cases(2, 3) + small_cases(3, 2)
         exh = small_cases(4, 2) + small_cases(3, 3) + small_cases(4, 3) + small_cases(5, 2)
-        yield from interleave((exh, 20), (rand_stream("walk", 6000000), 60),
+        yield from interleave((exh, 20), (rand_stream("walk", 6000000), 60), rand_stream("manysets", 600),
                               rand_stream("wide", 20000), rand_stream("errors", 30000),
                               rand_stream("boundary", 5000))
 
@@ -110,6 +110,10 @@ def requested_pairs(m, within, between):
             for u in s:
                 sid[int(u)] = j
         nodes = sorted(sid)
+        if len(nodes) > 2000:
+            # a node that no edge mentions has no ancestor but itself and no descendant: it cannot be in any segment
+            touched = {e[2] for e in m.edges} | {e[3] for e in m.edges}
+            nodes = [u for u in nodes if u in touched]
         return [(a, b) for a, b in itertools.combinations(nodes, 2) if sid[a] != sid[b]]
     nodes = sorted(int(u) for u in within) if within is not None else m.samples()
     return list(itertools.combinations(nodes, 2))
@@ -273,6 +277,8 @@ def matches(o, ref, sp, ss):
 
 def jsonable_args(args):
     def conv(x):
+        if isinstance(x, (list, tuple)) and len(x) > 2000:
+            return f"<{len(x)} entries, first {conv(list(x[:3]))}>"
         if isinstance(x, np.ndarray):
             return x.tolist()
         if isinstance(x, (list, tuple)):
@@ -520,6 +526,61 @@ def run_model(ctx, rng, m, ncalls, maxn=None, small=False, wide=False):
             check_call(ctx, m, objs, within, between, ms, mt, rng, refcache)
 
 
+SET_INDEXES = [0, 1, 127, 128, 255, 256, 32767, 32768, 65535, 65536, 65537, 65536 + 127, 65536 + 255, 65536 + 256]
+
+
+def run_manysets(ctx, rng):
+    """A `between` partition with more than 2^16 sets (one singleton per node of a large node table): the nodes of a small
+    embedded genealogy sit at set indexes around the 8/15/16-bit limits, in particular at 65535 and at pairs j, j + 65536.
+    All other nodes are isolated, so the reference is the small model's."""
+    n = rng.randint(3, 8)
+    m = gen.gen_topology(rng, n=n, max_bp=rng.choice([0, 1, 3]), sample_mode=rng.choice(["all", "any", "young"]))
+    ctx.sig(("manysets", m.signature()), nontrivial=len(m.edges) > 0)
+    N = 65536 + 300 + rng.randrange(300)
+    tc = to_tables(m)
+    extra = N - m.num_nodes
+    tc.nodes.append_columns(flags=np.zeros(extra, dtype=np.uint32), time=np.zeros(extra),
+                            population=np.full(extra, -1, dtype=np.int32), individual=np.full(extra, -1, dtype=np.int32),
+                            metadata=np.zeros(0, dtype=np.int8), metadata_offset=np.zeros(extra + 1, dtype=np.uint64))
+    ts = tc.tree_sequence()
+    # set index -> node of the small model; always 65535 and one pair (j, j + 65536)
+    j = rng.choice([0, 1, 127, 255, 256])
+    want = [65535, j, j + 65536] + rng.sample([x for x in SET_INDEXES if x not in (65535, j, j + 65536)], len(SET_INDEXES) - 3)
+    small = list(range(m.num_nodes))
+    rng.shuffle(small)
+    place = dict(zip(want, small))
+    rest = iter(range(m.num_nodes, N))
+    form = rng.randrange(3)
+    between = []
+    for k in range(N):
+        u = place[k] if k in place else next(rest)
+        between.append([u] if form == 0 else (u,) if form == 1 else np.array([u], dtype=np.int32))
+    ctx.count("manysets:calls")
+    ctx.feature("manysets:>65536 singleton sets")
+    refcache = {"unsquashed": has_unsquashed(m)}
+    objs = [ts, tc]
+    check_call(ctx, m, objs, None, between, None, None, rng, refcache)
+    cuts = time_cuts(m)
+    if cuts and rng.random() < 0.5:
+        check_call(ctx, m, objs, None, between, None, rng.choice(cuts), rng, refcache)
+    # fewer sets than nodes: the same embedding with the isolated nodes grouped 3 by 3 (about 22000 sets)
+    if rng.random() < 0.3:
+        grouped, cur = [], []
+        for k in range(N):
+            u = int(between[k][0])
+            if u < m.num_nodes:
+                grouped.append([u])
+            else:
+                cur.append(u)
+                if len(cur) == 3:
+                    grouped.append(cur)
+                    cur = []
+        if cur:
+            grouped.append(cur)
+        ctx.feature("manysets:grouped")
+        check_call(ctx, m, objs, None, grouped, None, None, rng, refcache)
+
+
 def wide_model(rng):
     """40-100 nodes under a two-node unary 'stem' so that one edge carries the ancestry of every
     requested node (the finder's segment queue starts with room for 63 segments), 1-3 intervals with
@@ -659,6 +720,9 @@ def run_case(case, ctx):
         ctx.sig(("small", n, tuple(case["pms"]), squash), nontrivial=len(m.edges) > 0)
         ctx.count("exhaustive-small-forests")
         run_model(ctx, rng, m, 3, small=True)
+        return
+    if g == "manysets":
+        run_manysets(ctx, rng)
         return
     if g == "wide":
         m = wide_model(rng)
